@@ -201,17 +201,37 @@ def eval_invalid(case, C):
             for c2 in (C.ColorFmt, C.ColorBytes):
                 c2(pr)
                 c2(None, bg_color=pr)
+        other = _spec(inv.get("other"))         # a valid value for the other slot of the same request
         try:
             if inv["where"] == "fg":
-                cls(spec)
+                cls(spec, bg_color=other, **(inv.get("eff") or {}))
             else:
-                cls(None, bg_color=spec)
+                cls(other, bg_color=spec, **(inv.get("eff") or {}))
             f.append(("invalid_spec_accepted", f"{cls.__name__} {inv!r}"))
         except ValueError:
             pass
         except Exception as e:   # noqa
             f.append(("invalid_spec_raises_" + type(e).__name__, f"{cls.__name__} {inv!r}: {e}"))
-    return Outcome(True, ["invalid_spec"] + (["invalid_spec_after_equal_valid_one"] if inv.get("prime") is not None else []), f,
+    # a rejected request must leave nothing behind: formatters created right after it are judged like any other
+    try:
+        for probe_kw, want in (({"color": "GREEN"}, (sgr.color_index("GREEN"), None, frozenset())),
+                               ({"color": None, "bold": True}, (None, None, frozenset(["bold"]))),
+                               ({"color": "RED", "no_color": True}, sgr.DEFAULT)):
+            kw = dict(probe_kw)
+            col = kw.pop("color")
+            s_ = str(C.ColorFmt(col, **kw)("t"))
+            b_ = C.ColorBytes(col, **kw)(b"t")
+            cells, final, _n = sgr.interpret(s_)
+            if len(cells) != 1 or cells[0][1] != want or final != sgr.DEFAULT or (want == sgr.DEFAULT and sgr.ESC in s_):
+                f.append(("formatter_created_after_a_rejected_request_is_wrong", f"after {inv!r}: ColorFmt({probe_kw!r}) -> {s_!r}"))
+                break
+            if b_ != s_.encode():
+                f.append(("bytes_formatter_created_after_a_rejected_request_differs", f"after {inv!r}: {b_!r} vs {s_!r}"))
+                break
+    except sgr.Malformed as e:
+        f.append(("formatter_created_after_a_rejected_request_is_malformed", f"after {inv!r}: {e}"))
+    return Outcome(True, ["invalid_spec"] + (["invalid_spec_after_equal_valid_one"] if inv.get("prime") is not None else [])
+                   + (["invalid_spec_next_to_valid_other_slot"] if inv.get("other") is not None else []), f,
                    key=["inv", inv["spec"], inv["where"], inv.get("prime")], evals=2)
 
 
@@ -248,6 +268,8 @@ def axis_enum():
     for sp in INVALID:
         yield {"invalid": {"spec": sp, "where": "fg"}}
         yield {"invalid": {"spec": sp, "where": "bg"}}
+        yield {"invalid": {"spec": sp, "where": "bg", "other": "RED"}}
+        yield {"invalid": {"spec": sp, "where": "fg", "other": 200, "eff": {"underline": True}}}
     for valid, inval in [(3, 3.0), (200, 200.0), (0, 0.0), (255, 255.0), ([1, 2, 3], [1.0, 2, 3]), ([5, 5, 5], [5, 5.0, 5]),
                          ([0, 0, 0], [0.0, 0.0, 0.0]), (7, 7.0)]:
         for w in ("fg", "bg"):
@@ -300,8 +322,11 @@ def st_invalid():
         st.integers(0, 255).map(lambda i: (i, float(i))),
         st.tuples(st.integers(0, 5), st.integers(0, 5), st.integers(0, 5), st.integers(0, 2)).map(
             lambda t: ([t[0], t[1], t[2]], [float(c) if k == t[3] else c for k, c in enumerate(t[:3])])))
+    valid = st.sampled_from([None, "RED", 7, 200, [1, 2, 3], "g5"])
     return st.one_of(
         st.builds(lambda s, w: {"invalid": {"spec": s, "where": w}}, bad, st.sampled_from(["fg", "bg"])),
+        st.builds(lambda s, w, o, e: {"invalid": {"spec": s, "where": w, "other": o, "eff": e}}, bad, st.sampled_from(["fg", "bg"]),
+                  valid, st.dictionaries(st.sampled_from(EFFECTS), st.booleans(), max_size=2)),
         st.builds(lambda t, w: {"invalid": {"spec": t[1], "where": w, "prime": t[0]}}, twins, st.sampled_from(["fg", "bg"])))
 
 
